@@ -194,6 +194,75 @@ pub fn wild_fault(rng: &mut Rng, data: &[u8]) -> Vec<u8> {
     d
 }
 
+/// comment lines with arbitrary content (the csv layer must not tokenise them)
+pub fn comment_line(rng: &mut Rng) -> Vec<u8> {
+    let fixed: &[&[u8]] = &[
+        b"#", b"##gff-version 3", b"###", b"#columns:\t\"seqname\tsource", b"#\t", b"#\"", b"# a \"quoted\" word",
+        b"#\t\"unterminated", b"#\t\t\t\t\t\t\t\t\t\t\t\t", b"# track name=\"x y\" description='z'", b"#\\\"", b"#a\tb\tc\t1\t2",
+    ];
+    match rng.below(14) {
+        0 => {
+            let mut l = b"# ".to_vec();
+            l.extend(tok(rng, 3000, 9000, b"abc \t\"'=;,#"));
+            l
+        }
+        1 => {
+            let mut l = b"#".to_vec();
+            l.extend(tok(rng, 0, 12, b"ab \t\"'\\#%;=,"));
+            l
+        }
+        _ => rng.pick(fixed).to_vec(),
+    }
+}
+
+/// insert 1..4 comment lines into `data` (whole lines, at the first / last / inner line boundaries)
+pub fn with_comments(rng: &mut Rng, data: &[u8]) -> (Vec<u8>, Vec<&'static str>) {
+    let mut lines: Vec<Vec<u8>> = data.split(|&b| b == b'\n').map(|l| l.to_vec()).collect();
+    let had_final_nl = data.last() == Some(&b'\n');
+    if had_final_nl {
+        lines.pop();
+    }
+    let mut where_: Vec<&'static str> = vec![];
+    for _ in 0..rng.range(1, 4) {
+        let pos = match rng.below(3) {
+            0 => 0,
+            1 => lines.len(),
+            _ => rng.below(lines.len() as u64 + 1) as usize,
+        };
+        where_.push(if pos == 0 { "comment_first_line" } else if pos == lines.len() { "comment_last_line" } else { "comment_between_lines" });
+        lines.insert(pos, comment_line(rng));
+    }
+    let mut out = vec![];
+    for l in lines.iter() {
+        out.extend_from_slice(l);
+        out.push(b'\n');
+    }
+    if !had_final_nl && rng.coin() {
+        out.pop();
+    }
+    (out, where_)
+}
+
+/// every string of length 1..=3 over the "CSV-hostile" alphabet
+pub fn hostile_strings() -> Vec<Vec<u8>> {
+    let alpha: &[u8] = b"\"\\'#%;=, ";
+    let mut out: Vec<Vec<u8>> = vec![];
+    let mut cur: Vec<Vec<u8>> = vec![vec![]];
+    for _ in 0..3 {
+        let mut nxt = vec![];
+        for c in &cur {
+            for &b in alpha {
+                let mut t = c.clone();
+                t.push(b);
+                nxt.push(t);
+            }
+        }
+        out.extend(nxt.iter().cloned());
+        cur = nxt;
+    }
+    out
+}
+
 pub fn mode_json(mode: &str, data: &[u8], fault: &str) -> Value {
     json!({"bytes": bytes(data), "mode": mode, "fault": fault})
 }
